@@ -1,8 +1,27 @@
 #!/usr/bin/env python3
-"""Print the measured columns of DESIGN §7.1 from the evidence files of the last run."""
-import json
+"""Print the DESIGN §7.1 table from evidence files: quick tier from /verif/evidence (last run),
+thorough tier from the directory given as argv[1] (copies of the evidence of the last thorough sweep)."""
+import json, sys, os
+th = sys.argv[1] if len(sys.argv) > 1 else None
+def main(c):
+    return max(c.get('executions') or 0, c.get('evaluations') or 0)
+def fmt(n):
+    if n is None or n == '-': return '-'
+    n = int(n)
+    if n >= 10_000_000: return '%.0f M' % (n/1e6)
+    if n >= 1_000_000: return '%.1f M' % (n/1e6)
+    if n >= 10_000: return '%.0f k' % (n/1e3)
+    if n >= 1_000: return '%.1f k' % (n/1e3)
+    return str(n)
+print('| id | level | quick: units | executions / evaluations | distinct states | transitions | wall | thorough: units | executions / evaluations | wall |')
+print('|---|---|---|---|---|---|---|---|---|---|')
 for i in range(1, 21):
-    e = json.load(open('/verif/evidence/C%02d.json' % i))
-    c = e['coverage']
-    n = c.get('executions') or c.get('evaluations') or 0
-    print("C%02d %-18s tier=%-8s units=%-4s main_count=%-9s states=%-8s transitions=%-9s wall=%ss" % (i, e.get('level'), e.get('tier'), c.get('units'), n, c.get('distinct_states', c.get('states', '-')), c.get('transitions', '-'), e.get('wall_s')))
+    pid = 'C%02d' % i
+    e = json.load(open('/verif/evidence/%s.json' % pid)); c = e['coverage']
+    row = [pid, e.get('level'), c.get('units'), fmt(main(c)), fmt(c.get('distinct_states', c.get('states', '-'))), fmt(c.get('transitions', '-')), '%.0f s' % float(e.get('wall_s') or 0)]
+    if th and os.path.exists('%s/%s.json' % (th, pid)):
+        t = json.load(open('%s/%s.json' % (th, pid))); tc = t['coverage']
+        row += [tc.get('units'), fmt(main(tc)), '%.0f s' % float(t.get('wall_s') or 0)]
+    else:
+        row += ['-', '-', '-']
+    print('| ' + ' | '.join(str(x) for x in row) + ' |')
